@@ -226,6 +226,78 @@ Section ScanProofs.
           apply IHds; [exact Hinv1 | rewrite Heq, app_length; lia | intros; apply Hds; right; assumption].
     Qed.
 
+    (* ---------- the loop of GetMatchedIndices ---------- *)
+    Fixpoint index_from (k : nat) (l : list tx) : list entry :=
+      match l with
+      | [] => []
+      | t :: r => entries_of t k ++ index_from (S k) r
+      end.
+
+    Lemma index_from_app a : forall k b, index_from k (a ++ b) = index_from k a ++ index_from (k + length a) b.
+    Proof.
+      induction a as [|t a IH]; intros k b; cbn [app index_from length].
+      - rewrite Nat.add_0_r. reflexivity.
+      - rewrite IH, <- app_assoc. do 3 f_equal. lia.
+    Qed.
+
+    Lemma index_from_in l : forall k h d kd, In (h, (d, kd)) (index_from k l) ->
+      (k <= kd)%nat /\ nth_error l (kd - k) = Some d /\ exists inp, In inp (t_ins d) /\ i_hash inp = h.
+    Proof.
+      induction l as [|t l IH]; intros k h d kd Hin; cbn [index_from] in Hin; [contradiction|].
+      apply in_app_or in Hin as [Hin|Hin].
+      - unfold entries_of in Hin. apply in_map_iff in Hin as [inp [Heq Hin]]. inversion Heq; subst.
+        rewrite Nat.sub_diag. repeat split; [lia|]. exists inp. auto.
+      - apply IH in Hin as [Hle [Hn Hex]]. split; [lia|]. split; [|exact Hex].
+        replace (kd - k)%nat with (S (kd - S k)) by lia. exact Hn.
+    Qed.
+
+    Lemma in_index_from l : forall k j t inp, nth_error l j = Some t -> In inp (t_ins t) ->
+      In (i_hash inp, (t, (k + j)%nat)) (index_from k l).
+    Proof.
+      induction l as [|t0 l IH]; intros k j t inp Hn Hin; [destruct j; discriminate|].
+      cbn [index_from]. apply in_or_app. destruct j as [|j]; cbn in Hn.
+      - inversion Hn; subst. left. rewrite Nat.add_0_r. unfold entries_of. apply in_map_iff. exists inp. auto.
+      - right. replace (k + S j)%nat with (S k + j)%nat by lia. eapply IH; eauto.
+    Qed.
+
+    Lemma index_from_length l : forall k, length (index_from k l) = total_inputs l.
+    Proof.
+      induction l as [|t l IH]; intros k; cbn [index_from total_inputs fold_right]; [reflexivity|].
+      rewrite app_length, IH. unfold entries_of. rewrite map_length. reflexivity.
+    Qed.
+
+    Lemma index_from_wf pre post : txs = pre ++ post -> idx_wf (index_from 0 pre).
+    Proof.
+      intros Heq h d kd Hin. apply index_from_in in Hin as [_ [Hn _]]. rewrite Nat.sub_0_r in Hn.
+      rewrite Heq. rewrite nth_error_app1; [exact Hn|]. apply nth_error_Some. congruence.
+    Qed.
+
+    Lemma deps_app (a b : list entry) h : deps (a ++ b) h = deps a h ++ deps b h.
+    Proof. unfold BloomTx.deps. rewrite filter_app, map_app. reflexivity. Qed.
+
+    Lemma deps_entries_of (t : tx) k h d kd : In (d, kd) (deps (entries_of t k) h) ->
+      d = t /\ kd = k /\ exists inp, In inp (t_ins t) /\ i_hash inp = h.
+    Proof.
+      unfold BloomTx.deps, entries_of. intros Hin. apply in_map_iff in Hin as [[h' [d' kd']] [Heq Hin]].
+      cbn in Heq. inversion Heq; subst. apply filter_In in Hin as [Hin Hh]. cbn in Hh.
+      apply txid_eqb_spec in Hh. subst h'. apply in_map_iff in Hin as [inp [Heq' Hin]]. inversion Heq'; subst.
+      repeat split. exists inp. auto.
+    Qed.
+
+    Lemma in_deps (idx : list entry) h d kd : In (h, (d, kd)) idx -> In (d, kd) (deps idx h).
+    Proof.
+      intros Hin. unfold BloomTx.deps. apply in_map_iff. exists (h, (d, kd)). split; [reflexivity|].
+      apply filter_In. split; [exact Hin|]. cbn. apply txid_eqb_spec. reflexivity.
+    Qed.
+
+    Lemma dc_app_le (a b : list entry) j : (dc a j <= dc (a ++ b) j)%nat.
+    Proof. unfold dc. destruct (nth_error txs j); [|lia]. rewrite deps_app, app_length. lia. Qed.
+
+    Lemma sum_dc_app_le (a b : list entry) l : (sum_dc a l <= sum_dc (a ++ b) l)%nat.
+    Proof.
+      unfold sum_dc, list_sum. induction l as [|j l IH]; cbn [map fold_right]; [lia|]. pose proof (dc_app_le a b j). lia.
+    Qed.
+
     (* ---------- completeness of one check ---------- *)
     Section HotOutputs.
     (* [Hot t k]: after any MATCHING call on t (against a filter above f0) the outpoint of
@@ -318,78 +390,6 @@ Section ScanProofs.
           * apply IH2b; assumption.
     Qed.
 
-    (* ---------- the loop of GetMatchedIndices ---------- *)
-    Fixpoint index_from (k : nat) (l : list tx) : list entry :=
-      match l with
-      | [] => []
-      | t :: r => entries_of t k ++ index_from (S k) r
-      end.
-
-    Lemma index_from_app a : forall k b, index_from k (a ++ b) = index_from k a ++ index_from (k + length a) b.
-    Proof.
-      induction a as [|t a IH]; intros k b; cbn [app index_from length].
-      - rewrite Nat.add_0_r. reflexivity.
-      - rewrite IH, <- app_assoc. do 3 f_equal. lia.
-    Qed.
-
-    Lemma index_from_in l : forall k h d kd, In (h, (d, kd)) (index_from k l) ->
-      (k <= kd)%nat /\ nth_error l (kd - k) = Some d /\ exists inp, In inp (t_ins d) /\ i_hash inp = h.
-    Proof.
-      induction l as [|t l IH]; intros k h d kd Hin; cbn [index_from] in Hin; [contradiction|].
-      apply in_app_or in Hin as [Hin|Hin].
-      - unfold entries_of in Hin. apply in_map_iff in Hin as [inp [Heq Hin]]. inversion Heq; subst.
-        rewrite Nat.sub_diag. repeat split; [lia|]. exists inp. auto.
-      - apply IH in Hin as [Hle [Hn Hex]]. split; [lia|]. split; [|exact Hex].
-        replace (kd - k)%nat with (S (kd - S k)) by lia. exact Hn.
-    Qed.
-
-    Lemma in_index_from l : forall k j t inp, nth_error l j = Some t -> In inp (t_ins t) ->
-      In (i_hash inp, (t, (k + j)%nat)) (index_from k l).
-    Proof.
-      induction l as [|t0 l IH]; intros k j t inp Hn Hin; [destruct j; discriminate|].
-      cbn [index_from]. apply in_or_app. destruct j as [|j]; cbn in Hn.
-      - inversion Hn; subst. left. rewrite Nat.add_0_r. unfold entries_of. apply in_map_iff. exists inp. auto.
-      - right. replace (k + S j)%nat with (S k + j)%nat by lia. eapply IH; eauto.
-    Qed.
-
-    Lemma index_from_length l : forall k, length (index_from k l) = total_inputs l.
-    Proof.
-      induction l as [|t l IH]; intros k; cbn [index_from total_inputs fold_right]; [reflexivity|].
-      rewrite app_length, IH. unfold entries_of. rewrite map_length. reflexivity.
-    Qed.
-
-    Lemma index_from_wf pre post : txs = pre ++ post -> idx_wf (index_from 0 pre).
-    Proof.
-      intros Heq h d kd Hin. apply index_from_in in Hin as [_ [Hn _]]. rewrite Nat.sub_0_r in Hn.
-      rewrite Heq. rewrite nth_error_app1; [exact Hn|]. apply nth_error_Some. congruence.
-    Qed.
-
-    Lemma deps_app (a b : list entry) h : deps (a ++ b) h = deps a h ++ deps b h.
-    Proof. unfold BloomTx.deps. rewrite filter_app, map_app. reflexivity. Qed.
-
-    Lemma deps_entries_of (t : tx) k h d kd : In (d, kd) (deps (entries_of t k) h) ->
-      d = t /\ kd = k /\ exists inp, In inp (t_ins t) /\ i_hash inp = h.
-    Proof.
-      unfold BloomTx.deps, entries_of. intros Hin. apply in_map_iff in Hin as [[h' [d' kd']] [Heq Hin]].
-      cbn in Heq. inversion Heq; subst. apply filter_In in Hin as [Hin Hh]. cbn in Hh.
-      apply txid_eqb_spec in Hh. subst h'. apply in_map_iff in Hin as [inp [Heq' Hin]]. inversion Heq'; subst.
-      repeat split. exists inp. auto.
-    Qed.
-
-    Lemma in_deps (idx : list entry) h d kd : In (h, (d, kd)) idx -> In (d, kd) (deps idx h).
-    Proof.
-      intros Hin. unfold BloomTx.deps. apply in_map_iff. exists (h, (d, kd)). split; [reflexivity|].
-      apply filter_In. split; [exact Hin|]. cbn. apply txid_eqb_spec. reflexivity.
-    Qed.
-
-    Lemma dc_app_le (a b : list entry) j : (dc a j <= dc (a ++ b) j)%nat.
-    Proof. unfold dc. destruct (nth_error txs j); [|lia]. rewrite deps_app, app_length. lia. Qed.
-
-    Lemma sum_dc_app_le (a b : list entry) l : (sum_dc a l <= sum_dc (a ++ b) l)%nat.
-    Proof.
-      unfold sum_dc, list_sum. induction l as [|j l IH]; cbn [map fold_right]; [lia|]. pose proof (dc_app_le a b j). lia.
-    Qed.
-
     (* invariant of the outer loop after the transactions [done] have been processed *)
     Definition J (done : list tx) (st : sstate) : Prop :=
       Inv st /\ le_f f0 (s_f st) /\
@@ -462,10 +462,10 @@ Section ScanProofs.
     Qed.
 
     (* ---------- the four block theorems ---------- *)
-    Theorem scan_fuel_enough : exists st, scan fl f0 txs = Some st.
+    Lemma scan_fuel_enough_H : exists st, scan fl f0 txs = Some st.
     Proof. destruct scan_inv as [st [H _]]. eauto. Qed.
 
-    Theorem scan_sound st : scan fl f0 txs = Some st ->
+    Lemma scan_sound_H st : scan fl f0 txs = Some st ->
       le_f f0 (s_f st) /\ NoDup (s_matched st) /\
       forall i, In i (s_matched st) -> exists t, nth_error txs i = Some t /\ matches_spec (s_f st) t.
     Proof.
@@ -475,16 +475,19 @@ Section ScanProofs.
     Lemma Rel_In t : Rel fl f0 txs t -> In t txs.
     Proof. intros H; destruct H; assumption. Qed.
 
-    Theorem scan_complete_here st : scan fl f0 txs = Some st ->
-      forall t, Rel fl f0 txs t -> forall k, nth_error txs k = Some t -> In k (s_matched st).
+    Lemma RelH_In t : RelH Hot f0 txs t -> In t txs.
+    Proof. intros H; destruct H; assumption. Qed.
+
+    Lemma scan_complete_H st : scan fl f0 txs = Some st ->
+      forall t, RelH Hot f0 txs t -> forall k, nth_error txs k = Some t -> In k (s_matched st).
     Proof.
       intros H. destruct scan_inv as [st' [H' [_ [_ [Hcl [Hinit _]]]]]]. rewrite H in H'. inversion H'; subst st'.
       intros t HR. induction HR as [t Hin Hms | p t HRp IHp Hin Hs]; intros k Hk.
       - eapply Hinit; eauto.
-      - apply Rel_In in HRp. apply In_nth_error in HRp as [kp Hkp].
+      - apply RelH_In in HRp. apply In_nth_error in HRp as [kp Hkp].
         specialize (IHp kp Hkp). destruct (Hcl kp IHp p Hkp) as [_ Hdeps].
         eapply Hdeps; [|exact Hs].
-        destruct Hs as [inp [k' [o [Hinp [Hh _]]]]].
+        destruct Hs as [inp [k' [Hinp [Hh _]]]].
         apply in_deps. rewrite <- Hh. apply (in_index_from txs 0 k t inp Hk Hinp).
     Qed.
 
@@ -541,13 +544,44 @@ Section ScanProofs.
         rewrite Hsplit. pose proof (hits_le_one e Hids l Hnd). specialize (IH l Hnd). cbn [length]. lia.
     Qed.
 
-    Theorem scan_cost_here st : NoDup (map (@t_id item txid) txs) -> scan fl f0 txs = Some st ->
+    Lemma scan_cost_H st : NoDup (map (@t_id item txid) txs) -> scan fl f0 txs = Some st ->
       (s_calls st <= length txs + total_inputs txs)%nat.
     Proof.
       intros Hids H. destruct scan_inv as [st' [H' [[Hnd _] [_ [_ [_ Hcalls]]]]]]. rewrite H in H'. inversion H'; subst st'.
       pose proof (sum_dc_le_length Hids (index_from 0 txs) (s_matched st) Hnd) as Hle.
       rewrite index_from_length in Hle. lia.
     Qed.
+    End HotOutputs.
+
+    (* ---------- the instance that gives Rel: outputs hitting f0 whose class the flag allows ---------- *)
+    Lemma hot0_inserted : forall f t k, le_f f0 f -> In t txs ->
+      fst (match_tx_update fl f t) = true -> hot0 contains fl f0 t k ->
+      contains (snd (match_tx_update fl f t)) (op_item (t_id t) (N.of_nat k)) = true.
+    Proof. intros f t k Hle _ _ [o [Hn [Hh Hfl]]]. eapply match_inserts; eauto. Qed.
+
+    Lemma Rel_RelH t : Rel fl f0 txs t -> RelH (hot0 contains fl f0) f0 txs t.
+    Proof.
+      intros HR. induction HR as [t Hin Hms | p t HRp IHp Hin Hs].
+      - apply RelH_init; assumption.
+      - eapply RelH_spend; [exact IHp | exact Hin|].
+        destruct Hs as [inp [k [o [H1 [H2 [H3 [H4 [H5 H6]]]]]]]]. exists inp, k. repeat split; auto. exists o. auto.
+    Qed.
+
+    Theorem scan_fuel_enough : exists st, scan fl f0 txs = Some st.
+    Proof. exact (scan_fuel_enough_H _ hot0_inserted). Qed.
+
+    Theorem scan_sound st : scan fl f0 txs = Some st ->
+      le_f f0 (s_f st) /\ NoDup (s_matched st) /\
+      forall i, In i (s_matched st) -> exists t, nth_error txs i = Some t /\ matches_spec (s_f st) t.
+    Proof. exact (scan_sound_H _ hot0_inserted st). Qed.
+
+    Theorem scan_complete_here st : scan fl f0 txs = Some st ->
+      forall t, Rel fl f0 txs t -> forall k, nth_error txs k = Some t -> In k (s_matched st).
+    Proof. intros H t HR. apply (scan_complete_H _ hot0_inserted st H), Rel_RelH, HR. Qed.
+
+    Theorem scan_cost_here st : NoDup (map (@t_id item txid) txs) -> scan fl f0 txs = Some st ->
+      (s_calls st <= length txs + total_inputs txs)%nat.
+    Proof. exact (scan_cost_H _ hot0_inserted st). Qed.
 
     (* ---------- a generic preservation rule for the outer loop ---------- *)
     Lemma scan_loop_preserve (P : sstate -> Prop) fuel :
@@ -690,6 +724,24 @@ Section ScanProofs.
     intros HP HR. induction HR as [t Hin Hms | p t HRp IHp Hin Hs].
     - apply Rel_init; [eapply Permutation_in; eauto | exact Hms].
     - eapply Rel_spend; [exact IHp | eapply Permutation_in; eauto | exact Hs].
+  Qed.
+
+  (* the general form: any set of "hot" outputs whose outpoints are contained after a matching call *)
+  Lemma RelH_perm Hot f0 (txs txs' : list tx) t : Permutation txs txs' -> RelH Hot f0 txs t -> RelH Hot f0 txs' t.
+  Proof.
+    intros HP HR. induction HR as [t Hin Hms | p t HRp IHp Hin Hs].
+    - apply RelH_init; [eapply Permutation_in; eauto | exact Hms].
+    - eapply RelH_spend; [exact IHp | eapply Permutation_in; eauto | exact Hs].
+  Qed.
+
+  Theorem scan_complete_hot (Hot : tx -> nat -> Prop) f0 (txs txs' : list tx) st' :
+    (forall f t k, le_f f0 f -> In t txs -> fst (match_tx_update fl f t) = true -> Hot t k ->
+       contains (snd (match_tx_update fl f t)) (op_item (t_id t) (N.of_nat k)) = true) ->
+    Permutation txs txs' -> scan fl f0 txs' = Some st' ->
+    forall t, RelH Hot f0 txs t -> forall k, nth_error txs' k = Some t -> In k (s_matched st').
+  Proof.
+    intros HH HP Hs t HR. eapply (scan_complete_H txs' f0 Hot); [|exact Hs|eapply RelH_perm; eauto].
+    intros f t' k' Hle Hin. apply HH; [exact Hle|]. eapply Permutation_in; [apply Permutation_sym; exact HP | exact Hin].
   Qed.
 
   Theorem scan_complete f0 (txs txs' : list tx) st' :
